@@ -1,4 +1,5 @@
 import PptxModel.Model.Proto
+import PptxModel.Model.Serial
 import PptxModel.Model.ChartData
 import PptxModel.Model.Hierarchy
 import PptxModel.Model.Replace
@@ -83,6 +84,13 @@ def handle : List String → Option String
       let lens ← decNatList lens; let j ← j.toNat?
       let (top, bottom) := xyRef lens j
       pure s!"{top} {bottom} {xyRowOffset lens j + 1}"
+  | ["c08.serial", y, m, d, sys] => do
+      let y ← y.toInt?; let m ← m.toInt?; let d ← d.toInt?
+      let b := sys == "1"
+      if !Pptx.Serial.validDate y m d then pure "invalid" else
+      let n := Pptx.Serial.excelDateNumber b y m d
+      let (y', m', d') := Pptx.Serial.dateOfSerial b n
+      pure s!"{n} {String.ofList (Pptx.Serial.serialText n)} {y'}-{m'}-{d'}"
   | ["c08.col", n] => do let n ← n.toNat?; pure (String.ofList (colRef n))
   | _ => none
 end Pptx.Drv.C07
